@@ -708,7 +708,7 @@ PROPS["C06"] = {
     "theorems": ["C06_gateway_refuted", "C06_gateway_only_interference_fails", "C06_client_refuted", "C06_client_only_interference_fails"],
     "drivers": ["drv_gw.test", "drv_client.test"],
     "units": [Unit("drv_gw", unit_gw), Unit("drv_client", unit_client)],
-    "mismatch_kinds": [r"SN:(Puback|Suback|Pubrec|Pubcomp|Pubrel)", r"MQ:(PUBACK|PUBREC|PUBCOMP)", r"PANIC", r"MISSING-"],
+    "mismatch_kinds": [r"SN:(Puback|Suback|Pubrec|Pubcomp|Pubrel|Publish|Register)", r"MQ:(PUBACK|PUBREC|PUBCOMP)", r"PANIC", r"MISSING-"],
     "rule": GW_RULE + " (broker message IDs are drawn from the live client exchanges a quarter of the time; two corpus witnesses run first); " + CL_RULE,
     "assumptions": GW_ASSUME + CL_ASSUME,
 }
@@ -793,7 +793,8 @@ PROPS["C26"] = {
 PROPS["C16"] = {
     "theorems": ["C16_retransmission_is_the_same_packet_with_DUP", "C16_gateway_stops_after_RetryCount",
                  "C16_gateway_relays_every_step", "C16_qos1_delivered_within_the_retry_budget", "C16_qos2_completes_exactly_once_with_one_loss",
-                 "C16_register_step_survives_a_lost_regack", "C16_client_answers_every_PUBREL"],
+                 "C16_register_step_survives_a_lost_regack", "C16_client_answers_every_PUBREL",
+                 "C16_sleep_survives_a_lost_disconnect_reply"],
     "drivers": ["drv_e2e.test", "drv_gw.test", "drv_client.test"],
     "units": [Unit("drv_e2e", unit_e2e), Unit("drv_gw", unit_gw), Unit("drv_client", unit_client)],
     "mismatch_kinds": [r"^(C2G|G2C|BR|BS|CB|RET)", r"EXTRA (C2G|G2C|BR|BS)", r"MISSING (C2G|G2C|BR|BS)",
